@@ -1,6 +1,7 @@
 import SLE.Lemmas.EvmSim
 import SLE.Gen.OpcodeTemplates
 import SLE.Lemmas.MachineFacts
+import SLE.Lemmas.PathSim
 /-!
 # C07 — every explored path computes what a concrete EVM computes on that path
 
@@ -132,5 +133,42 @@ theorem C07_history_append_only (c : Ctx) (code : List Disasm.Instr) (ins : Disa
     (d : TData) (ctr : Nat) (k : SV) :
     MachineFacts.gens d k <+: MachineFacts.gens (execOp c code ins d ctr).d k :=
   MachineFacts.execOp_storage_monotone c code ins d ctr k
+
+
+/-! ### Whole paths -/
+
+/-- Every thread the machine still runs stands, with related data, at a configuration the
+reference EVM reaches on some path; every finished thread's data is related to a
+reference-reachable state up to the operands its last (halting or failing) instruction had
+already popped. For every program of the property's instruction subset whose keys, offsets and
+jump targets are pushed immediately before use, every configuration with a positive size limit,
+every number of iterations. -/
+theorem C07_path_sim_queued {bytes : List Nat} {code : List Disasm.Instr}
+    (H : PathSim.Prog bytes code) (hsc : PathSim.InScope bytes) (hg : PathSim.PushGuarded code)
+    (cfg : Cfg) (hlim : 1 ≤ cfg.valueLimit) (s : VMS) (hs : PathSim.MReach cfg code s) :
+    ∀ t ∈ s.queue, ∀ ins, code[t.ip]? = some ins → ins ≠ .nop →
+      ∃ cs, PathSim.RReach (PathSim.arr bytes) (PathSim.dat bytes) (t.ip, cs) ∧ Rel t.d cs :=
+  PathSim.queued_state_at_instruction H hsc cfg (PathSim.sideOK_of_guarded H hg cfg hlim) s hs
+
+theorem C07_path_sim_stored_partial {bytes : List Nat} {code : List Disasm.Instr}
+    (H : PathSim.Prog bytes code) (hsc : PathSim.InScope bytes) (hg : PathSim.PushGuarded code)
+    (cfg : Cfg) (hlim : 1 ≤ cfg.valueLimit) (fuel : Nat) :
+    ∀ t ∈ (run cfg code fuel (initVM cfg code)).stored,
+      ∃ pc cs k, PathSim.RReach (PathSim.arr bytes) (PathSim.dat bytes) (pc, cs) ∧ Rel t.d (PathSim.dropK k cs) :=
+  PathSim.stored_state_matches_a_path_guarded H hsc hg cfg hlim fuel
+
+/-- Both continuations of a JUMPI are simulated: the fall-through always, the jump when the
+target is valid — with the same popped data on both sides. -/
+theorem C07_jumpi_both_ways {bytes : List Nat} {code : List Disasm.Instr} (H : PathSim.Prog bytes code)
+    {c : Ctx} {d : TData} {ctr : Nat} {cs : EVM.CS}
+    (hi : code[c.ip]? = some (.op 0x57)) (hR : Rel d cs)
+    (hT : ∀ k r, d.stack = k :: r → PathSim.TargetOK k)
+    (he : (execOp c code (.op 0x57) d ctr).err = none) :
+    ∃ cs2, PathSim.RStep (PathSim.arr bytes) (PathSim.dat bytes) (c.ip, cs) (c.ip + 1, cs2) ∧
+      Rel (execOp c code (.op 0x57) d ctr).d cs2 ∧
+      ∀ t, (execOp c code (.op 0x57) d ctr).forkTo = some t →
+        PathSim.RStep (PathSim.arr bytes) (PathSim.dat bytes) (c.ip, cs) (t, cs2) ∧
+        Rel { (execOp c code (.op 0x57) d ctr).d with forkPoint := c.ip } cs2 :=
+  PathSim.jumpi_sim_partial H hi hR hT he
 
 end SLE.C07
